@@ -75,7 +75,9 @@ impl InMemoryIndex {
     { unimplemented!() }
 }
 
-pub struct BlobFileName { pub id: usize }
+// (blob::FileName: prefix + id + extension + dir) - the id, and whether the extension is the INDEX-file
+// extension: index files are the only files the library ever truncates / recreates (C07)
+pub struct BlobFileName { pub id: usize, pub is_index: bool }
 impl BlobFileName {
     #[verifier::external_body]
     pub fn clone(&self) -> (r: BlobFileName) ensures r == *self { unimplemented!() }
@@ -177,8 +179,9 @@ impl FileIndexStub {
         &&& self.disk_count() as nat == sum_len(m)
     }
     #[verifier::external_body]
-    pub fn from_records(path: (), io: (), headers: &InMemoryIndex, meta: Vec<u8>, recreate_index_file: bool, blob_size: u64) -> (r: Result<FileIndexStub, VErr>)
-        requires sum_len(headers@) <= usize::MAX
+    // C07: creates / truncates (clean_file) and rewrites the file at `path`: only ever an INDEX file
+    pub fn from_records(path: &BlobFileName, io: (), headers: &InMemoryIndex, meta: Vec<u8>, recreate_index_file: bool, blob_size: u64) -> (r: Result<FileIndexStub, VErr>)
+        requires sum_len(headers@) <= usize::MAX, path.is_index
         ensures r.is_ok() ==> r->Ok_0.agrees_with(headers@) && r->Ok_0.meta_bytes() == meta@
     { unimplemented!() }
     #[verifier::external_body]
